@@ -5,6 +5,7 @@ from ..astutil import dotted, method_call
 from ..cfg import cfg_of, fact_key, implied, norm, walk_own
 from ..consteval import resolve_class, Scope
 from ..locks import regions
+from ..flow import unchanged_param
 from ..mutate import B, M
 
 PROP = 'C10'
@@ -44,6 +45,12 @@ def _runs_before(g, node, call, later):
         allowed |= {fact_key('%s is None' % r, False), fact_key(r, True)}
     extra = g.fact_keys_at(node) - g.fact_keys_at(later)
     return bool(extra) and extra <= allowed and g.path_avoiding(node, [later]) is not None
+
+
+def _runs_before_or_after(g, popn, canceln, name):
+    """the cancel of a popped timer runs on every path after the pop, or is skipped only when the popped value is None / false"""
+    extra = g.fact_keys_at(canceln) - g.fact_keys_at(popn)
+    return extra <= {fact_key('%s is None' % name, False), fact_key(name, True)}
 
 
 def check(ctx):
@@ -108,6 +115,15 @@ def check(ctx):
     kws = {k.arg: norm(k.value) for k in rc[0].keywords} if len(rc) == 1 else {}
     kws = {k_: v_ for k_, v_ in kws.items() if k_ in ('expected_reply', 'resend') or spd.get(k_) != v_}      # a keyword that repeats send_packet's own default says nothing
     okr = len(rc) == 1 and [norm(a) for a in rc[0].args] == [retry.params[1]] and kws == {'expected_reply': retry.params[2], 'resend': 'True'}
+    gr_ = cfg_of(retry)
+    rn_ = gr_.node_of(rc[0]) if len(rc) == 1 else None
+    ctx.inst('R1', retry, 'retry-unconditional', rn_ is not None and not gr_.fact_keys_at(rn_) and ('n', rn_.id) in (gr_.dom().get(('n', gr_.exit.id)) or ()),
+             'an expired timer always retransmits (send_packet itself drops the retry when the request was answered or the link is gone): a guard here - on the connection '
+             'state, say - stops the retries of a request made before the first packet arrived; guards %s' % (sorted(gr_.fact_keys_at(rn_)) if rn_ is not None else '?'))
+    gsp_ = cfg_of(sp)
+    uses_ = [n for n in gsp_.nodes if n.kind == 'stmt' and isinstance(n.ast, ast.Assign) and norm(n.ast.targets[0]) == 'pattern']
+    ctx.inst('R1', sp, 'expectation-as-given', bool(uses_) and all(unchanged_param(gsp_, n, 'expected_reply') for n in uses_) and 'expected_reply' in sp.params,
+             'the pattern is built from the expected_reply argument as the caller gave it (a shim that strips or rewrites leading bytes makes the real reply miss the pattern)')
     ctx.inst('R1', retry, 'retry-call', okr, 'retry must call send_packet(pk, expected_reply=pattern, resend=True); found %s' % [norm(c) for c in rc])
 
     # ---- R2: transmission on the retry path needs a pending pattern -------------
@@ -162,6 +178,10 @@ def check(ctx):
     lm = norm(dels[0].ast.targets[0].slice)
     okc = len(cancels) == 1 and norm(_receiver(ga, *cancels[0]).slice) == lm and _runs_before(ga, cancels[0][0], cancels[0][1], dels[0])
     ctx.inst('R3', ca, 'cancel-and-delete-same-entry', okc, 'the deleted entry %s must have been cancelled first' % lm)
+    pops = [norm(c)[:60] for c in walk_own(ca.node) if method_call(c, 'pop') and norm(c.func.value) == PAT]
+    ctx.inst('R3', ca, 'only-the-longest-match-is-removed', not pops and len(dels) == 1,
+             'an incoming packet releases exactly one entry, the longest matching pattern found by comparing all candidates; a short cut that pops another key '
+             '(a remembered length, the first match) cancels the wrong request: %s' % (pops or 'none'))
     ctx.inst('R3', ca, 'only-on-match', fact_key('len(%s) > 0' % lm, True) in ga.fact_keys_at(dels[0]),
              'cancel/delete only when a match was found (len(%s) > 0)' % lm)
     ctx.inst('R3', ca, 'after-all-candidates', not any(n.id in {b.id for b in ga.loop_body_nodes(lp)} for n in [c[0] for c in cancels] + [dels[0]]),
@@ -198,12 +218,19 @@ def check(ctx):
             elif isinstance(st, ast.Delete) and any(norm(t).startswith(PAT + '[') for t in st.targets):
                 site = ('del', st)
             elif isinstance(st, (ast.Expr, ast.Assign)) and any(method_call(c, 'pop') and norm(c.func.value) == PAT for c in walk_own(st)):
-                ctx.need(False, '%s: %s.pop(...) is not a recognised removal idiom' % (f.qualname, PAT))
+                site = ('pop', st)
             if not site:
                 continue
             gf = gf or cfg_of(f)
             sn = gf.nodes_of(st)
             ctx.need(sn, 'statement not in CFG')
+            if site[0] == 'pop':
+                # t = table.pop(k[, None]) ... t.cancel(): the removed timer itself is cancelled (possibly under a None guard)
+                tg = st.targets[0] if isinstance(st, ast.Assign) and isinstance(st.targets[0], ast.Name) else None
+                cs = [n for n, c in gf.find(lambda q: method_call(q, 'cancel'))
+                      if tg is not None and norm(c.func.value) == tg.id and any(d is sn[0] for d in gf.reaching_defs(n, tg.id)) and _runs_before_or_after(gf, sn[0], n, tg.id)]
+                ctx.inst('R4', f, 'pop-cancels', len(cs) >= 1, 'a pending pattern taken out of the table with pop() must have its timer cancelled')
+                continue
             if site[0] == 'del':
                 k = norm(st.targets[0].slice)
                 cs = [n for n, c in gf.find(lambda q: method_call(q, 'cancel')) if norm(_receiver(gf, n, c)) == '%s[%s]' % (PAT, k) and _runs_before(gf, n, c, sn[0])]
